@@ -76,6 +76,11 @@ def run(name, ids):
     assert out.strip() == "", "repo not clean: " + out
     rc, out = sh("git -C /repo apply %s" % os.path.join(d, "patch.diff"))
     assert rc == 0, out
+    saved = {}
+    for pid in ids:
+        ep = "/verif/evidence/%s.json" % pid
+        if os.path.exists(ep):
+            saved[pid] = open(ep).read()
     try:
         for pid in ids:
             t0 = time.time()
@@ -90,6 +95,9 @@ def run(name, ids):
                 if os.path.exists(rp):
                     shutil.copy(rp, os.path.join(d, "replay-%s.json" % pid))
     finally:
+        # the evidence files describe runs on the unchanged tree: put them back
+        for pid, txt in saved.items():
+            open("/verif/evidence/%s.json" % pid, "w").write(txt)
         sh("git -C /repo checkout -- .")
         sh("git -C /repo clean -fd -e '*.go' >/dev/null 2>&1")
     json.dump(meta, open(os.path.join(d, "meta.json"), "w"), indent=1)
